@@ -261,7 +261,8 @@ Definition num_arith (o : aop) (a b : value) : res value :=
 
 (* The body of __TUPLE_META.__add/__sub/__mul/__div, given the elements xs of the operand whose length
    drives the loop, the other operand b, and `rec x y` = the Lua value of `x o y` for x among xs.
-   + - *: out[x] = a[x] o b[x].   /: a[x] / b[x] when type(b) == "table", else a[x] / b. *)
+   + : out[x] = __ADD(a[x], b[x]) (since /repo a9ac36e), - *: out[x] = a[x] o b[x].
+   /: a[x] / b[x] when type(b) == "table", else a[x] / b.   `rec` is given accordingly. *)
 Definition tuple_handler (o : aop) (rec : value -> value -> res value) (xs : list value) (b : value) : res value :=
   match b with
   | VTuple ys | VList ys => rmap VTuple (zipM rec xs ys)
@@ -279,10 +280,16 @@ Fixpoint rt_arith (o : aop) (a b : value) {struct a} : res value :=
   | ONum x, ONum y => num_arith o x y
   | ONum _, OStrNum | OStrNum, ONum _ | OStrNum, OStrNum => Unsup   (* a string coerced to a number *)
   | _, _ =>
+      (* what the tuple metamethods do with a pair of components: __ADD for +, the raw operator otherwise *)
+      let elem := fun x y =>
+        match o, x, y with
+        | OpAdd, VStr s, VStr t => Ok (VStr (s ++ t))
+        | _, _, _ => rt_arith o x y
+        end in
       match a with
-      | VTuple xs => tuple_handler o (fun x y => rt_arith o x y) xs b
+      | VTuple xs => tuple_handler o elem xs b
       | VList xs =>                                            (* only the 2nd operand has __add *)
-          match b with VTuple _ => tuple_handler o (fun x y => rt_arith o x y) xs b | _ => Err end
+          match b with VTuple _ => tuple_handler o elem xs b | _ => Err end
       | VStr s =>
           match b with
           | VTuple _ => match s with EmptyString => Ok (VTuple []) | _ => Err end   (* #a = 0 / a[x] is nil *)
@@ -349,7 +356,7 @@ Definition rt_index (o i : value) : res value :=
 (* ---- Maybe (std/maybe.sy) ---- *)
 
 Definition mk_just (v : value) : value := VVariant "Just" v.
-Definition lib_none : value := VVariant "None" VLuaNil.       (* what preamble.lua builds: __VARIANT({"None", nil}) *)
+Definition lib_none : value := VVariant "None" VNil.          (* what preamble.lua builds: __VARIANT({"None", __NIL}) (since /repo c4844e5) *)
 Definition src_none : value := VVariant "None" VNil.          (* what `Maybe.None` compiles to: __VARIANT{ "None", __NIL } *)
 
 (* `case m do Just x -> ... None -> ... end` compares __INDEX(m, 1) with the variant names *)
@@ -399,13 +406,11 @@ Definition rt_list_get (l : value) (i : Z) : res value :=
   | _ => Err
   end.
 
-(* list_set: if #l > i then l[i+1] = x end.  For i < 0 the guard holds and the assignment creates the
-   key i+1 <= 0 OUTSIDE the sequence (it is then visited by `pairs`, hence by len/fold/map/...): that
-   state has no representation here, so the outcome is Unsup (found and reported by the oracle). *)
+(* list_set: if i >= 0 and #l > i then l[i+1] = x end   (the guard i >= 0 since /repo 7ba9047) *)
 Definition rt_list_set (l : value) (i : Z) (x : value) : res value :=
   match l with
   | VList vs =>
-      if (i <? 0)%Z then Unsup
+      if (i <? 0)%Z then Ok l
       else if (i <? Z.of_nat (length vs))%Z then Ok (VList (replace_nth (Z.to_nat i) x vs))
       else Ok l
   | _ => Err
@@ -456,12 +461,9 @@ Definition rt_dict_new : value := VDict [].
 (* dict[tostring(k)] = __TUPLE {k, v} *)
 Definition rt_dict_update (d k v : value) : res value :=
   match d with VDict es => Ok (VDict (tbl_set (rt_tostring k) (k, v) es)) | _ => Err end.
-(* dict[k] = nil -- the RAW key, not tostring(k): only a string key addresses an entry *)
+(* dict[tostring(k)] = nil   (tostring since /repo 6c29222) *)
 Definition rt_dict_remove (d k : value) : res value :=
-  match d with
-  | VDict es => match k with VStr s => Ok (VDict (tbl_del s es)) | _ => Ok d end
-  | _ => Err
-  end.
+  match d with VDict es => Ok (VDict (tbl_del (rt_tostring k) es)) | _ => Err end.
 Definition rt_dict_get (d k : value) : res value :=
   match d with
   | VDict es => Ok (match tbl_get (rt_tostring k) es with Some (_, v) => mk_just v | None => lib_none end)
